@@ -9,7 +9,7 @@ ASSUMPTIONS = [
     "forest represents is a derivation tree of the input (productions, root, nested/ordered spans, leaves a "
     "tokenisation); it is run on every forest the impl returns, so validity holds for all trees of each checked forest",
     "theorem C01_nlr_sound: with a table passing table_struct any accepting run of the nondeterministic LR machine "
-    "yields a derivation of the shifted tokens (the GLR driver itself is not modelled step by step)",
+    "yields a derivation of the shifted tokens; theorem C01_glr_model_sound: every tree of the forest the Gallina model of the GLR driver (Model/GLR.v, tied to glr.py by the forest-isomorphism correspondence run in C02/C17) returns is a derivation tree, for every table passing table_struct, scanner, input and set order",
     "the 'if' direction (every sentence is accepted) is decided against an untrusted reference recognizer whose "
     "positive answers are certified by tree_ok (proved exact) plus a token-chain check; no completeness theorem (partial)",
     "recognizers are an oracle (match matrix from the impl's recognizer objects); layout is ws-based in generated cases",
